@@ -219,15 +219,15 @@ func enumerate(thorough bool, emit func(*Case)) {
 	}
 	sq := seqs(writeSizes, maxLen)
 	sq1 := seqs(writeSizes, 1)
-	for _, cc := range coreCfgs[:ncore] {
+	for ci, cc := range coreCfgs[:ncore] {
 		reduced := map[int]bool{}
 		for _, p := range payloadLens(cc.target, false) {
 			reduced[p] = true
 		}
 		for _, p := range payloadLens(cc.target, true) {
 			use := sq
-			if !thorough && !reduced[p] {
-				use = sq1 // quick: the other boundary payload lengths with at most one later write
+			if !thorough && (!reduced[p] || ci >= 6) {
+				use = sq1 // quick: the other boundary payload lengths, and the second half of the core configurations, with at most one later write
 			}
 			for _, hi := range padVariants(p) {
 				for _, s := range use {
